@@ -162,7 +162,7 @@ def check(pid, recheck=False):
         for m in state["mutants"].values():
             if m.get("gate") != "survives-tests":
                 continue
-            if "check" in m and not (recheck and m["check"] == "missed"):
+            if "check" in m and not (recheck and (m["check"] == "missed" or str(m["check"]).startswith("exit"))):
                 continue
             src = open("/repo/" + m["file"], "rb").read()
             apply(wt, m["file"], src, m)
